@@ -611,14 +611,20 @@ fn monitors(id: &str, programs: &[Vec<String>], log: &[Line], final_obs: Option<
   let mut cap_removed_cost: Vec<u64> = vec![0; n];
   let mut inflight: Vec<bool> = vec![false; n];
   let (mut clear_overlap, mut cap_mismatch) = (false, false);
+  // wrapping sum over capacity passes of (cost actually removed - cost the policy reported): the drift they explain
+  let mut cap_drift: u64 = 0;
 
-  let check_acct = |o: &Obs, fire: &mut dyn FnMut(&str, String), clear_overlap: bool, cap_mismatch: bool, at: &str| {
+  let check_acct = |o: &Obs, fire: &mut dyn FnMut(&str, String), clear_overlap: bool, cap_mismatch: bool, cap_drift: u64, at: &str| {
     let expected: u64 = o.1.values().map(|v| cost_of(*v)).sum();
     if o.0 != expected {
       let msg = format!("case {id} {at}: current_cost={} but the resident entries cost {expected} ({})", o.0, show_obs(o));
-      if clear_overlap { fire("conc:accounting:clear-overlaps-inflight-cost-update", msg.clone()); }
       if cap_mismatch { fire("conc:accounting:capacity-pass-subtracts-policy-reported-cost", msg.clone()); }
-      if !clear_overlap && !cap_mismatch { fire("conc:accounting:unexplained-drift", msg); }
+      // whatever the mis-informed capacity passes do not explain is attributed to a clear that overlapped an
+      // in-flight cost update (the pre-7e5c084 `store(0)` race) if there was one, else it is unexplained
+      if o.0.wrapping_sub(expected) != cap_drift {
+        if clear_overlap { fire("conc:accounting:clear-overlaps-inflight-cost-update", msg.clone()); }
+        else { fire("conc:accounting:unexplained-drift", msg); }
+      }
     }
   };
 
@@ -727,7 +733,7 @@ fn monitors(id: &str, programs: &[Vec<String>], log: &[Line], final_obs: Option<
         }
         cap_removed_cost[t] = c; inflight[t] = true;
       }
-      "capSub" => { if cap_removed_cost[t] != cap_released[t] { cap_mismatch = true; } inflight[t] = false; }
+      "capSub" => { if cap_removed_cost[t] != cap_released[t] { cap_mismatch = true; } cap_drift = cap_drift.wrapping_add(cap_removed_cost[t]).wrapping_sub(cap_released[t]); inflight[t] = false; }
       _ => {}
     }
     if has_ret { if let Some(i) = open_rm.remove(&t) { rmclr[i].2 = Some(li); } }
@@ -738,12 +744,12 @@ fn monitors(id: &str, programs: &[Vec<String>], log: &[Line], final_obs: Option<
         reg = o.1.clone();
       }
       last_obs = o.1.clone();
-      if line.quiescent { check_acct(o, &mut fire, clear_overlap, cap_mismatch, &format!("at quiescence after line {li}")); }
+      if line.quiescent { check_acct(o, &mut fire, clear_overlap, cap_mismatch, cap_drift, &format!("at quiescence after line {li}")); }
     }
   }
 
   if let Some(o) = final_obs {
-    check_acct(o, &mut fire, clear_overlap, cap_mismatch, "at the end");
+    check_acct(o, &mut fire, clear_overlap, cap_mismatch, cap_drift, "at the end");
     for (k, v) in &o.1 {
       let oks = ok_count.get(k).copied().unwrap_or(0);
       if v / 1000 != oks { fire("conc:compute-lost-update", format!("key {k} ends with value {v} ({} increments) after {oks} successful computes since its last write", v / 1000)); }
